@@ -24,8 +24,9 @@ SessionProp(stream, sh, log) ==
   /\ Len(SelectSeq(log, LAMBDA x : x.t = "end")) = 1 /\ log[Len(log)].t = "end"
 ReaderOk(e) == /\ SessionProp(e.stream, e.sh, e.log) /\ e.pm = e.sp         \* read_message = parse of each delivered piece, then the same end
                /\ \A i \in 1..Len(e.pm) : e.pm[i].v # "panic"               \* no byte stream makes read_message panic (wherever the panic arises)
-PairOk(e) ==  \* C08: same messages, same kind of terminal outcome, no panic
-  /\ Outs(e.alog) = Outs(e.blog) /\ EndOf(e.alog) = EndOf(e.blog) /\ EndOf(e.alog) \in {"eos", "err"}
+EndCls(log) == LET x == SelectSeq(log, LAMBDA y : y.t = "end") IN IF x = <<>> THEN "none" ELSE x[1].cls
+PairOk(e) ==  \* C08: same messages, same kind of terminal outcome (end of stream, or an error of the same class), no panic
+  /\ Outs(e.alog) = Outs(e.blog) /\ EndOf(e.alog) = EndOf(e.blog) /\ EndOf(e.alog) \in {"eos", "err"} /\ EndCls(e.alog) = EndCls(e.blog)
   /\ \A i \in 1..Len(e.alog) : e.alog[i].t = "out" => e.alog[i].ret = "same"
   /\ e.am = e.bm
 \* growth beyond the listed properties: a caller that goes on after errors reaches the end of the stream (named deviation: the readers
